@@ -21,3 +21,71 @@ fn full_word_from_id() {
         Err(_) => assert!(!spec_data_id_valid(id) && id != ID_TDH && id != ID_TDT && id != ID_IHW && id != ID_DDW0 && id != ID_CDW, "[C19] only unknown ids are rejected"),
     }
 }
+
+use alice_protocol_reader::prelude::*;
+
+static mut CHECK_CALLS: u32 = 0;
+static mut CHECK_ORDER_OK: bool = true;
+static mut CHECK_BASE: usize = 0;
+static mut CHECK_STRIDE: usize = 10;
+
+/// stand-in for CdpRunningValidator::check (its dispatch is proved in Verus unit v_dispatch, its handlers in
+/// Kani full_handler_*): records that the k-th call got the 10 bytes at payload offset k * slot size
+fn stub_check<T: RDH, C: ChecksOpt + FilterOpt + CustomChecksOpt>(_v: &mut CdpRunningValidator<T, C>, gbt_word: &[u8]) {
+    unsafe {
+        if gbt_word.len() != 10 || gbt_word.as_ptr() as usize != CHECK_BASE + CHECK_CALLS as usize * CHECK_STRIDE {
+            CHECK_ORDER_OK = false;
+        }
+        CHECK_CALLS += 1;
+    }
+}
+
+// @harness id=bnd40_do_payload_checks props=C12,C01,C02,C07,C04 kind=bnd tier=quick bound=payload<=40B fns=do_payload_checks,preprocess_payload,CdpRunningValidator::set_current_rdh,CdpRunningValidator::reset_fsm stubs=alloc::fmt::format,flume::Sender::send,CdpRunningValidator::check
+// Every word of the payload is handed to the validator exactly once, in order, as the 10 bytes at its slot;
+// padding is never a word; a payload ending in more than 15 bytes of 0xFF is reported once (at the RDH
+// offset), no word is examined and the protocol state is reset to the initial state.
+#[kani::proof]
+#[kani::stub(alloc::fmt::format, stub_format_nonempty)]
+#[kani::stub(flume::Sender::send, stub_send)]
+#[kani::stub(CdpRunningValidator::check, stub_check)]
+#[kani::unwind(42)]
+fn bnd40_do_payload_checks() {
+    let rb: [u8; 64] = kani::any();
+    let rdh = RdhCru::from_buf(&rb[..]).unwrap();
+    let s = fake_sender();
+    // validator whose FSM is in the middle of a split packet (state c_IHW), i.e. not the initial state
+    let mut v = crate::analyze::validators::its::cdp_running::verif_cdp_running::validator_in(5, true, None, &rb, 64, 0);
+    unsafe { CHECK_CALLS = 0; CHECK_ORDER_OK = true; }
+    let data: [u8; 40] = kani::any();
+    let len: usize = kani::any();
+    kani::assume(len >= 1 && len <= 40);
+    let p = &data[..len];
+    // trailing 0xFF run
+    let mut run = 0;
+    while run < len && p[len - 1 - run] == 0xFF {
+        run += 1;
+    }
+    let v0 = len >= 16 && p[10] == 0 && p[11] == 0 && p[12] == 0 && p[13] == 0 && p[14] == 0 && p[15] == 0;
+    kani::assume(!v0 || len % 16 == 0);
+    kani::assume(v0 || run > 9 || true);
+    unsafe { CHECK_BASE = p.as_ptr() as usize; CHECK_STRIDE = if v0 { 16 } else { 10 }; }
+    let pos: u64 = kani::any();
+    kani::assume(pos < (1 << 62));
+    let r = do_payload_checks((&rdh, p, pos), &s, &mut v);
+    assert!(r.is_ok(), "[C12] payload checks do not fail the link");
+    let calls = unsafe { CHECK_CALLS } as usize;
+    if run > 15 {
+        assert!(calls == 0, "[C12] a payload ending in more than 15 bytes of 0xFF is skipped: no word is examined");
+        assert!(sent_errors() == 1 && sent_total() == 1, "[C12][C02] the over-long padding is reported exactly once");
+        assert!(crate::analyze::validators::its::cdp_running::verif_cdp_running::fsm_state_of(&v) == Q::Ihw, "[C12] the protocol state is reset so the next packet is judged from the initial state");
+    } else {
+        assert!(sent_total() == 0, "[C12][C01] an accepted payload is not reported by the chunking stage");
+        let expect = if v0 { len / 16 } else if run > 9 { (len - run) / 10 } else { len / 10 };
+        assert!(calls == expect, "[C12] every word is examined exactly once; padding is never a word");
+        assert!(unsafe { CHECK_ORDER_OK }, "[C12][C07] the k-th word examined is the 10 bytes at slot k of the payload");
+    }
+    kani::cover!(run > 15);
+    kani::cover!(run <= 15 && calls == 3);
+    core::mem::forget(v);
+    core::mem::forget(s);
+}
